@@ -259,6 +259,10 @@ class Sym(Interp):
             k = T(idx)[1]
             if -len(b[1]) <= k < len(b[1]):
                 return b[1][k]
+        if b[0] == "phi" and len(b) == 4 and is_const(T(idx)) and isinstance(T(idx)[1], int) and not isinstance(T(idx)[1], bool) and \
+                any(isinstance(x, tuple) and x and x[0] in ("tuple", "list") for x in (b[2], b[3])):
+            # (x if c else (y, 0))[k]: the index goes into both alternatives - a display is taken apart, an opaque value indexed
+            return self.mkphi(b[1], T(self.h_subscript(b[2], idx, n, env, ctx)), T(self.h_subscript(b[3], idx, n, env, ctx)))
         return ("sub", b, T(idx))
 
     def h_unary(self, op, v, n, ctx):
@@ -317,6 +321,8 @@ class Sym(Interp):
         t = T(v)
         if t[0] in ("tuple", "list") and len(t[1]) == k:
             return list(t[1])
+        if t[0] == "phi":
+            return [T(self.h_subscript(t, ("const", i), n, None, ctx)) for i in range(k)]
         return [("sub", t, ("const", i)) for i in range(k)]
 
     def _comp(self, n, env, ctx, kind):
